@@ -8,15 +8,16 @@ sys.setrecursionlimit(20000)
 
 
 class State:
-    __slots__ = ('cur', 'saved', 'flags', 'ro', 'next', 'trace')
+    __slots__ = ('cur', 'saved', 'copies', 'flags', 'ro', 'next', 'trace')
 
     def __init__(self, ro=False):
-        self.cur, self.saved, self.flags = {}, {}, {}
+        self.cur, self.saved, self.flags, self.copies = {}, {}, {}, {}
         self.ro, self.next, self.trace = ro, 2000000, []
 
     def copy(self):
         s = State(self.ro)
         s.cur, s.saved, s.flags = dict(self.cur), dict(self.saved), dict(self.flags)
+        s.copies = dict(self.copies)
         s.next, s.trace = self.next, list(self.trace)
         return s
 
@@ -33,9 +34,10 @@ class State:
 class Decider:
     """supplies decisions and records them (the outcome sequence)"""
 
-    def __init__(self, choose):
+    def __init__(self, choose, on_mark=None):
         self.choose = choose
         self.bits = []
+        self.on_mark = on_mark
 
     def next(self, kind, node, st):
         b = bool(self.choose(kind, node, st, len(self.bits)))
@@ -50,6 +52,8 @@ def run(sc, st, dec):  # noqa: C901
         return 'norm'
     if k == 'mark':
         st.trace.append(sc[1])
+        if dec.on_mark is not None:
+            dec.on_mark(st)
         return 'norm'
     if k == 'assign':
         st.cur[sc[1]] = st.next
@@ -67,6 +71,12 @@ def run(sc, st, dec):  # noqa: C901
         return 'norm'
     if k == 'restore':
         st.cur[sc[1]] = st.getsaved(sc[1])
+        return 'norm'
+    if k == 'saveC':
+        st.copies[sc[1]] = st.getcur(sc[1])
+        return 'norm'
+    if k == 'restoreC':
+        st.cur[sc[1]] = st.copies.get(sc[1], 1000001)
         return 'norm'
     if k == 'guard':
         return 'roexc' if st.ro else 'norm'
@@ -119,7 +129,26 @@ class Abort(Exception):
     pass
 
 
-def search(sc, accept, ro=False, max_nodes=200000, loop_bound=2):
+def find_bits(sc, want_trace, want_exit, ro=False, max_nodes=20000):
+    """decision sequence under which the script produces exactly the marks `want_trace` and ends `want_exit`
+    ('ok' = returns normally, 'exc' = DOM exception, 'roexc'); None if the script admits no such run"""
+    n = len(want_trace)
+
+    def prune(st):
+        k = len(st.trace)
+        if k > n or st.trace[k - 1] != want_trace[k - 1]:
+            raise Abort()
+
+    def accept(ex, st):
+        if st.trace != want_trace:
+            return False
+        if want_exit == 'ok':
+            return ex in ('norm', 'ret')
+        return ex == want_exit
+    return search(sc, accept, ro=ro, max_nodes=max_nodes, loop_bound=n + 2, prune=prune)
+
+
+def search(sc, accept, ro=False, max_nodes=200000, loop_bound=2, prune=None):
     """depth-first search over decision sequences; `accept(exit, st)` -> truthy to stop. Returns (bits, exit, st)
     or None. Loops are unrolled at most `loop_bound` times per dynamic loop instance."""
     count = [0]
@@ -156,10 +185,13 @@ def search(sc, accept, ro=False, max_nodes=200000, loop_bound=2):
             if kind == 'loop' and not c:
                 loops[id(node)] = 0
             return c
-        dec = Decider(choose2)
-        ex = run(sc, st, dec)
+        dec = Decider(choose2, on_mark=prune)
+        try:
+            ex = run(sc, st, dec)
+        except Abort:
+            ex = 'abort'
         bits = dec.bits
-        if accept(ex, st):
+        if ex != 'abort' and accept(ex, st):
             return bits, ex, st
         for i in reversed(pending):
             stack.append(bits[:i] + [True])
